@@ -132,9 +132,11 @@ TaintKept(T, post) == {t \in T : ~Clean(post, t.m, t.v)}
 PAfter(P, pre, e, post) == [io |-> IoAfter(P, e, post), taint |-> TaintNow(P, pre, e)]
 PNext(P2, post) == [P2 EXCEPT !.taint = TaintKept(@, post)]
 
-\* label of a discrepancy about value v of model m
+\* label of a discrepancy about value v of model m (a discrepancy about an
+\* object the harness cannot identify, v < 0, is attributed to the tainted
+\* values of the model, if any)
 LabelFor(T, m, v, dflt) ==
-    LET ks == {t.k : t \in {t \in T : t.m = m /\ t.v = v}} IN
+    LET ks == {t.k : t \in {t \in T : t.m = m /\ (t.v = v \/ v < 0)}} IN
     IF ks = {} THEN {dflt} ELSE ks
 
 SymD(a, b) == (a \ b) \cup (b \ a)
@@ -189,9 +191,14 @@ RoundTripLabels(P2, e) ==
     ELSE LET exp == P2.io[e.m]
              Good(x) == \E y \in e.rt : /\ y.v = x.v /\ y.loc = x.loc /\ y.exists /\ y.eq
                                         /\ y.src = y.rd /\ y.refs_ok
-             bad == {x \in exp : e.res # "ok" \/ ~Good(x)}
+             bad == {x \in exp : ~Good(x)}
              dl  == SymD({x.loc : x \in exp}, e.rspecs)
              badl == {x \in exp : x.loc \in dl} IN
+         IF e.res # "ok"
+         THEN \* the save or the load failed as a whole: every live spec is lost; with a
+              \* tainted value in the model the failure is attributed to its finding
+              IF exp = {} THEN {} ELSE LabelFor(P2.taint, e.m, -1, "C18.SavedSpecsRoundTrip")
+         ELSE
          UNION {LabelFor(P2.taint, e.m, x.v, "C18.SavedSpecsRoundTrip") : x \in bad \cup badl}
          \cup (IF e.res = "ok" /\ (dl \ {x.loc : x \in exp}) # {}
                THEN {"C18.SavedSpecsRoundTrip"} ELSE {})
